@@ -241,6 +241,17 @@ def run(ctx):
                 (ub[0] or "").startswith("($1@BlockDecodingStrategy::UptoBlocks.0 <= (") and ".block_counter - @" in (ub[0] or "") and \
                 (uy[0] or "").startswith("($1@BlockDecodingStrategy::UptoBytes.0 <= (ruzstd::decoding::decode_buffer::DecodeBuffer::len(") and \
                 ".decoder_scratch.buffer) - @DecodeBuffer::len))" in (uy[0] or "")
+            # the baselines the two tests subtract are the snapshots taken *before the loop* (a later `let` of the same
+            # name inside the loop would measure one block, not the call)
+            for a in last["arms"]:
+                for x in hq.find(a["body"], lambda x: x.get("k") == "If"):
+                    for sub in hq.find(x["cond"], lambda y: y.get("k") == "Binary" and y["op"] == "-"):
+                        r_ = hq.peel(sub["r"])
+                        d_ = ix.canon.defs.get(r_.get("lid")) if r_.get("k") == "Local" else None
+                        decl = next((y for y in hq.find(b["body"], lambda y: y.get("k") == "LetStmt" and y["pat"].get("k") == "Bind" and y["pat"].get("lid") == r_.get("lid"))), None)
+                        if decl is None or decl["sp"][0] >= lp["sp"][0]:
+                            okb = False
+                            got["baseline"] = "`%s` (line %s) is not a snapshot taken before the loop" % (r_.get("src_name") or r_.get("name"), (decl or {}).get("sp", [0, 0, "?"])[2])
             ctx.check(okb, RP, "decode_blocks::budget-conditions", b["file"],
                       "stop when blocks decoded since entry >= n (UptoBlocks) / bytes buffered since entry >= n (UptoBytes)", observed=got)
         # the "before" snapshots are taken before the loop
